@@ -131,6 +131,30 @@ THIRD ROUND (each again an explicit rule)
                C16 idioms (symbols: any type with decidable equality): dict.fromkeys(list(s)) -> the model's keys,
                s.count(x) -> count_occ, == on symbols -> the decision procedure.
 
+FOURTH ROUND: the engine index code (each again an explicit rule)
+
+  statement    a target with `locate_stmts` translates a RANGE OF CONSECUTIVE STATEMENTS of one block as a function of
+  ranges       its declared free locals returning the named locals (`returns`; a tuple for several).  The locator
+               returns the statements after checking their surroundings (e.g. that the locals are not re-bound outside
+               the range, that the loop body ends with the dict store); no return / raise inside the range.
+  slices       l[lo:hi] with a bound that is not syntactically >= 0  ->  src_slice l lo hi: Python's saturating slice
+               (a negative bound counts from the end, every bound is clipped to 0..len).  `-window_size // 2 + 1`
+               parses as ((-window_size) // 2) + 1 and `//` is Z.div (floor), as in Python.
+               X[i][lo:hi] = 0 | 1 | False | True on a local boolean matrix  ->  bind (src_row_upd X i (fun row =>
+               src_fill_slice row lo hi v)): Python indexing of the row (IndexError), saturating slice, scalar
+               broadcast, the row keeps its length.
+  NumPy        np.concatenate((a, b, c)) on 1-D int arrays -> a ++ b ++ c;  np.arange(n) -> src_range 0 n;
+               np.zeros((a, b), dtype=bool) -> repeat (repeat false b) a;  np.absolute -> Z.abs;
+               a.take(idx, mode='wrap') -> bind (src_take_wrap a idx) (element i mod len(a); IndexError for a
+               non-empty take from an empty array);
+               the sliding-window idiom, three statements checked syntactically:
+                   shape = X.shape[:-1] + (X.shape[-1] - W + 1, W); strides = X.strides + (X.strides[-1],)
+                   return np.lib.stride_tricks.as_strided(X, shape=shape, strides=strides)
+               on a 1-D X  ->  bind (src_as_strided_windows X W): row i is X[i : i + W], i = 0 .. len(X) - W
+               (ValueError for a negative count or width).
+  ranges       range(..) as a value / list(range(..)) -> the list it enumerates; range(a, b, s) with s a local declared
+               > 0;  a Python local named like a Coq keyword (`end`) is the binder py_end.
+
 The parameter types of each target (which name is the 3x3 block, which the cell index, ...) are declared in TARGETS
 below: they are assumptions about how the library calls the function, not read from the source.
 
@@ -418,6 +442,62 @@ def _c02_axis_stmts(fn):
     return inner[:-1]
 
 
+def _c10_block_stmts(fn):
+    b = _body(fn)
+    def is_assign(st, name):
+        return isinstance(st, ast.Assign) and len(st.targets) == 1 and ast.unparse(st.targets[0]) == name
+    first = [i for i, st in enumerate(b) if is_assign(st, 'cell_indices')]
+    last = [i for i, st in enumerate(b) if is_assign(st, 'block_indices_even')]
+    odd = [i for i, st in enumerate(b) if is_assign(st, 'block_indices_odd')]
+    if first and len(last) == 1 and len(odd) == 1 and first[0] < odd[0] < last[0]:
+        i, j = first[0], last[0]
+        for k, other in enumerate(b):
+            if not i <= k <= j:
+                for n in ast.walk(other):
+                    if isinstance(n, ast.Name) and n.id in ('block_indices_odd', 'block_indices_even', 'block_size') \
+                            and isinstance(n.ctx, ast.Store):
+                        raise TranslationError('%s is re-bound outside the statement range' % n.id)
+        return b[i:j + 1]
+    raise TranslationError('the statements from the first cell_indices = .. to block_indices_even = .. were not found')
+
+
+def _c03_key_stmts(fn):
+    b = _body(fn)
+    if [a.arg for a in fn.args.args][:2] != ['indices', 'curr_state'] or 'r' not in [a.arg for a in fn.args.args]:
+        raise TranslationError('parameters are not (indices, curr_state, .., r, ..)')
+    idx = [i for i, st in enumerate(b) if isinstance(st, ast.Assign) and ast.unparse(st.targets[0]) == 'neighbourhood']
+    if len(idx) != 1:
+        raise TranslationError('not exactly one assignment to neighbourhood')
+    seg = b[:idx[0] + 1]
+    if not all(isinstance(st, ast.Assign) for st in seg):
+        raise TranslationError('the statements before `neighbourhood = ..` are not plain assignments')
+    for other in b[idx[0] + 1:]:
+        for n in ast.walk(other):
+            if isinstance(n, ast.Name) and n.id in ('neighbourhood', 'start') and isinstance(n.ctx, ast.Store):
+                raise TranslationError('%s is re-bound after the statement range' % n.id)
+    return seg
+
+
+def _c03_split_stmts(fn):
+    b = _body(fn)
+    if [a.arg for a in fn.args.args][:1] != ['indices']:
+        raise TranslationError('the first parameter is not indices')
+    seg = []
+    for st in b:
+        if isinstance(st, ast.Assign):
+            seg.append(st)
+        else:
+            break
+    names = [ast.unparse(st.targets[0]) for st in seg]
+    if 'left_indices' not in names or 'right_indices' not in names:
+        raise TranslationError('left_indices / right_indices are not assigned at the top of _step')
+    # what follows must hand exactly these two lists to _update_state
+    rest = ast.unparse(ast.Module(body=b[len(seg):], type_ignores=[]))
+    if '_update_state(left_indices,' not in rest or '_update_state(right_indices,' not in rest:
+        raise TranslationError('the two halves are not passed to _update_state')
+    return seg
+
+
 _SYMG = '{A : Type} (sym_dec : forall a b : A, {a = b} + {a <> b})'
 _SYMG2 = _SYMG + ' {B : Type} (sym2_dec : forall a b : B, {a = b} + {a <> b})'
 
@@ -494,6 +574,17 @@ TARGETS = [
          locate_stmts=_c02_axis_stmts, what='of the body of the double loop (before the dict store)',
          free=[('row', Z), ('col', Z), ('r', Z), ('rows', Z), ('cols', Z)],
          returns=['row_indices', 'col_indices'], params=[], attrs=[]),
+    dict(name='block_indices', prop='C10', file='ca_functions.py', cls=None, func='evolve_block',
+         locate_stmts=_c10_block_stmts, what='that build block_indices_odd and block_indices_even',
+         free=[('initial_conditions', ZLIST), ('block_size', Z)], positive=['block_size'],
+         returns=['block_indices_odd', 'block_indices_even'], params=[], attrs=[], effects=True),
+    dict(name='memo_key', prop='C03', file='ca_functions.py', cls=None, func='_update_state',
+         locate_stmts=_c03_key_stmts, what='up to `neighbourhood = curr_state.take(.., mode=wrap)`',
+         free=[('indices', ZLIST), ('curr_state', ZLIST), ('r', Z)],
+         returns=['start', 'neighbourhood'], params=[], attrs=[], effects=True),
+    dict(name='memo_split', prop='C03', file='ca_functions.py', cls=None, func='_step',
+         locate_stmts=_c03_split_stmts, what='that split indices into left_indices and right_indices',
+         free=[('indices', ZLIST)], returns=['left_indices', 'right_indices'], params=[], attrs=[]),
     dict(name='hopfield_train', prop='C20', file='hopfield_net.py', cls='HopfieldNet', func='train',
          params=[('P', ROWS)], attrs=[], effects=True, attr_locals={'_W': MATRIX}),
     dict(name='hopfield_rule', prop='C20', file='hopfield_net.py', cls='HopfieldNet', func='_rule',
@@ -597,6 +688,10 @@ Definition src_row_upd {A} (m : list (list A)) (i : Z) (f : list A -> list A) : 
 Definition src_as_strided_windows {A} (l : list A) (w : Z) : res (list (list A)) :=
   if (w <? 0) || (Z.of_nat (length l) - w + 1 <? 0) then Raise ValueError
   else Ok (map (fun i => firstn (Z.to_nat w) (skipn i l)) (seq 0 (Z.to_nat (Z.of_nat (length l) - w + 1)))).
+(* a.take(idx, mode='wrap') on a 1-D array *)
+Definition src_take_wrap (a idx : list Z) : res (list Z) :=
+  if (length a =? 0)%nat && negb (length idx =? 0)%nat then Raise IndexError
+  else Ok (map (fun i => nth (Z.to_nat (i mod Z.of_nat (length a))) a 0) idx).
 (* a loop whose body can raise, break or continue: the accumulator is threaded through the body *)
 Inductive src_ctl (A : Type) := Next (a : A) | Break (a : A).
 Arguments Next {A} a.
@@ -1229,6 +1324,16 @@ class FunTrans:
 
     def call(self, e, env):
         f = e.func
+        # a.take(idx, mode='wrap') on a 1-D array: element i mod len(a) for every index (IndexError for a non-empty
+        # take from an empty array)
+        if isinstance(f, ast.Attribute) and f.attr == 'take' and len(e.args) == 1 and len(e.keywords) == 1 \
+                and e.keywords[0].arg == 'mode' and isinstance(e.keywords[0].value, ast.Constant) \
+                and e.keywords[0].value.value == 'wrap':
+            a, ta = self.expr(f.value, env)
+            idx, ti = self.expr(e.args[0], env)
+            if ta not in (ZLIST, ZVEC) or ti not in (ZLIST, ZVEC):
+                _err(e, '.take(.., mode=wrap) on (%s, %s)' % (ta, ti))
+            return self.bind(env, e, 'src_take_wrap %s %s' % (a, idx)), ZLIST
         # np.base_repr(rule, base=k).zfill(w): the model's base_repr (digit values, ValueError for a base outside
         # 2..36) and zfill
         if isinstance(f, ast.Attribute) and f.attr == 'zfill' and len(e.args) == 1 and not e.keywords \
@@ -1429,6 +1534,11 @@ class FunTrans:
                 if tl == 'emptylist':
                     return '(@nil bool)', BITS
             _err(e, "''.join(..) other than ''.join([str(x) for x in <list of 0/1 ints>])")
+        if isinstance(f, ast.Name) and f.id == 'list' and len(e.args) == 1 and not e.keywords \
+                and isinstance(e.args[0], ast.Call) and isinstance(e.args[0].func, ast.Name) \
+                and e.args[0].func.id == 'range':
+            lst, ety, _ = self.iter_source(e.args[0], env)
+            return lst, ZLIST
         # range(..) as a value: the list it enumerates (a later comprehension or loop materialises it)
         if isinstance(f, ast.Name) and f.id == 'range' and not e.keywords and 1 <= len(e.args) <= 3:
             lst, ety, _ = self.iter_source(e, env)
@@ -1688,7 +1798,11 @@ class FunTrans:
                 _err(s, 'multiple assignment targets')
             tg = s.targets[0]
             if isinstance(tg, ast.Name):
-                name = _check_ident(tg, tg.id)
+                if tg.id in COQ_KEYWORDS and re.match(r'^[a-z]+$', tg.id):
+                    env.alias[tg.id] = 'py_' + tg.id      # a Python local named like a Coq keyword (e.g. `end`)
+                    name = tg.id
+                else:
+                    name = _check_ident(tg, tg.id)
                 tx, ty = self.expr(s.value, env)
                 if ty in (ADDS, DICT5, STORE, UNUSED):
                     _err(s, 'a value of type %s cannot be bound to a local' % ty)
@@ -1710,7 +1824,7 @@ class FunTrans:
                         env2.elts.pop(other, None)
                 if ty == OPTZ and tx == 'None':
                     tx = '(@None Z)'
-                return self.wrap_binds(env, self.let(name, tx, cont(env2)))
+                return self.wrap_binds(env, self.let(env.alias.get(name, name), tx, cont(env2)))
             if self.stateful and isinstance(tg, ast.Subscript) and _is_self_attr(tg.value, self.t['state']):
                 if not env.toplevel:
                     _err(s, 'a write to self.%s below the top level of the body' % self.t['state'])
@@ -1953,8 +2067,9 @@ class FunTrans:
             nonneg = len(args) == 1 or (_is_int_const(it.args[0]) and it.args[0].value >= 0) or \
                 self.is_nonneg(it.args[0], env)
             if len(args) == 3:
-                if not (_is_int_const(it.args[2]) and it.args[2].value > 0):
-                    _err(it, 'range with a step that is not a positive literal')
+                if not ((_is_int_const(it.args[2]) and it.args[2].value > 0) or
+                        (isinstance(it.args[2], ast.Name) and it.args[2].id in env.positive)):
+                    _err(it, 'range with a step that is not a positive literal (or a local declared > 0)')
                 return '(src_range_step %s %s %s)' % (lo, hi, args[2][0]), Z, nonneg
             return '(src_range %s %s)' % (lo, hi), Z, nonneg
         if isinstance(it, ast.Call) and isinstance(it.func, ast.Name) and it.func.id == 'enumerate' \
@@ -2725,6 +2840,8 @@ PROP_FUNS = {
     'C18': ['src_binary_derivative', 'src_cyclic_binary_derivative'],
     'C01': ['src_index_strides'],
     'C02': ['src_vn_mask', 'src_axis_indices'],
+    'C10': ['src_block_indices'],
+    'C03': ['src_memo_key', 'src_memo_split'],
     'C08': ['src_totalistic_rule', 'src_totalistic_rule_call'],
     'C16': ['src_shannon_symbols', 'src_shannon_count', 'src_joint_indicator', 'src_ami_guard', 'src_ami_left',
             'src_ami_right'],
